@@ -7,6 +7,7 @@ import torch
 
 from quantem.core import config
 from quantem.core.io.serialize import AutoSerialize
+from quantem.core.utils import _verif_trace as _vt
 from quantem.core.utils.rng import RNGMixin
 from quantem.core.utils.utils import (
     electron_wavelength_angstrom,
@@ -841,6 +842,7 @@ class PtychographyBase(RNGMixin, AutoSerialize):
 
     def reset_recon(self) -> None:
         self._reset_rng()
+        _vt.emit("restart", seeded=self._rng_seed is not None)
         self.obj_model.reset()
         self.probe_model.reset()
         self.dset.reset()
